@@ -1,3 +1,4 @@
+pub mod crash;
 pub mod engine;
 pub mod gens;
 pub mod refjson;
